@@ -186,6 +186,9 @@ class Index(object):
         return None
 
     def find_class(self, name):
+        if ':' in name:
+            modname, cname = name.split(':')
+            return self.module(modname).classes[cname]
         hits = [m.classes[name] for m in self.modules.values() if name in m.classes]
         if len(hits) != 1:
             raise KeyError('class %s: %d definitions' % (name, len(hits)))
